@@ -10,7 +10,7 @@ Graphs in *spec form* are the JSON shape of Terms.tla::
 
     {key: {"kind": "task"|"data"|"alias", "f": label, "args": [arg, ...]}}
     arg = {"t": "ref", "k": key} | {"t": "lit", "v": int} | {"t": "list", "xs": [arg..]}
-        | {"t": "call", "f": label, "xs": [arg..]}
+        | {"t": "call", "f": label, "xs": [arg..]} | {"t": "dict", "ks": [str..], "xs": [arg..]}
 
 ``norm`` converts any Python value into the tagged JSON shape of the specification's values
 (``{"t": "app", "f": .., "a": [..]}``, ``{"t": "lit", "v": ..}``, ``{"t": "list", "xs": [..]}`` ...), and
@@ -131,7 +131,7 @@ def arg_refs(a, acc=None):
     t = a["t"]
     if t == "ref":
         acc.add(a["k"])
-    elif t in ("list", "call"):
+    elif t in ("list", "call", "dict"):
         for x in a["xs"]:
             arg_refs(x, acc)
     return acc
@@ -185,6 +185,8 @@ def denote_arg(g, a, memo):
         return {"t": "list", "xs": [denote_arg(g, x, memo) for x in a["xs"]]}
     if t == "call":
         return {"t": "app", "f": a["f"], "a": [denote_arg(g, x, memo) for x in a["xs"]]}
+    if t == "dict":
+        return canon({"t": "dict", "kv": [[{"t": "str", "s": k}, denote_arg(g, x, memo)] for k, x in zip(a["ks"], a["xs"])]})
     raise ValueError(a)
 
 
@@ -253,6 +255,8 @@ def legacy_arg(a, K):
         return [legacy_arg(x, K) for x in a["xs"]]
     if t == "call":
         return (Fn(a["f"]),) + tuple(legacy_arg(x, K) for x in a["xs"])
+    if t == "dict":
+        return {k: legacy_arg(x, K) for k, x in zip(a["ks"], a["xs"])}
     raise ValueError(a)
 
 
@@ -268,7 +272,7 @@ def legacy_graph(g, K, order=None):
 
 
 def ts_arg(a, K, refstyle="taskref"):
-    from dask._task_spec import Alias, List, Task, TaskRef
+    from dask._task_spec import Alias, Dict, List, Task, TaskRef
     t = a["t"]
     if t == "ref":
         return TaskRef(K[a["k"]]) if refstyle == "taskref" else Alias(K[a["k"]])
@@ -278,6 +282,8 @@ def ts_arg(a, K, refstyle="taskref"):
         return List(*[ts_arg(x, K, refstyle) for x in a["xs"]])
     if t == "call":
         return Task(None, Fn(a["f"]), *[ts_arg(x, K, refstyle) for x in a["xs"]])
+    if t == "dict":
+        return Dict({k: ts_arg(x, K, refstyle) for k, x in zip(a["ks"], a["xs"])})
     raise ValueError(a)
 
 
@@ -328,6 +334,9 @@ def node_refs(v):
         elif type(x) is list:
             for a in x:
                 walk(a)
+        elif type(x) is dict:
+            for a in x.values():
+                walk(a)
         elif isinstance(x, (str, tuple)):
             acc.add(x)
         # ints and anything else: literal
@@ -348,7 +357,7 @@ def project_deps(deps, inv):
 
 
 # ---------------------------------------------------------------- generated graphs
-def random_graph(rng, n, max_size=300, p_list=0.2, p_call=0.15):
+def random_graph(rng, n, max_size=300, p_list=0.2, p_call=0.15, p_dict=0.12):
     """Seeded random spec-form DAG with n nodes in topological numbering, biased towards the
     shapes the optimizers care about (chains, diamonds, shared and repeated dependencies,
     aliases, constants)."""
@@ -382,6 +391,9 @@ def random_graph(rng, n, max_size=300, p_list=0.2, p_call=0.15):
                 elif args and rng.random() < p_call:
                     cut = rng.randrange(len(args))
                     args = args[:cut] + [{"t": "call", "f": "g%d" % i, "xs": args[cut:]}]
+                elif args and rng.random() < p_dict:
+                    cut = rng.randrange(len(args))
+                    args = args[:cut] + [{"t": "dict", "ks": ["p", "q", "r"][:len(args) - cut], "xs": args[cut:]}]
                 g[k] = {"kind": "task", "f": "f%d" % i, "args": args}
         if term_size(g) <= max_size:
             return g
